@@ -1339,6 +1339,18 @@ impl Check for C14 {
             }
             s.ops = ops;
         }
+        // the PC exposed as a memory-mapped register and written by the program (target: never-written memory)
+        if r.chance(1, 8) {
+            let port = 0xFE50 + r.below(8) as u16;
+            s.iregs.push((port, IReg::PC));
+            s.flags.ignore_privilege = true;
+            s.regs.retain(|(k, _)| *k != 1 && *k != 2);
+            s.regs.push((1, 0x6000 + r.below(0x4000) as u16));
+            s.regs.push((2, port));
+            let pc = s.pc;
+            // STR R1, R2, #0 at the first instruction
+            s.pokes.push((pc, vec![0x7280]));
+        }
         // jumps into OS memory / the I/O page need the privilege checks off to get past the ACV
         if r.chance(1, 3) {
             s.flags.ignore_privilege = true;
